@@ -37,7 +37,41 @@ def run(chk, ctx):
     data = codec.buf('data')
     it, outs = codec.run(prog, fp, [data])
     site = '%s:%d' % (fp.module.relpath, fp.node.lineno)
-    rets = [o for o in outs if o.kind == 'return']
+    rets = []
+    for o in outs:
+        if o.kind != 'return':
+            continue
+        # a conditional result (helper's joined return) is one return per
+        # leaf, each under its guard
+        leaves = []
+
+        def walk(t, guards):
+            if isinstance(t, Sym) and t.op == 'cond' and len(leaves) < 8:
+                walk(t.args[1], guards + [t.args[0]])
+                walk(t.args[2], guards + [T.not_(t.args[0])])
+                return
+            if isinstance(t, tuple) and len(leaves) < 8:
+                # a tuple joined component by component: split on the guard
+                # its conditional components share
+                gs = [c.args[0] for c in t
+                      if isinstance(c, Sym) and c.op == 'cond']
+                if gs and all(g_ is gs[0] for g_ in gs):
+                    g0 = gs[0]
+                    pick = lambda c, i: c.args[i] if (
+                        isinstance(c, Sym) and c.op == 'cond') else c
+                    walk(tuple(pick(c, 1) for c in t), guards + [g0])
+                    walk(tuple(pick(c, 2) for c in t),
+                         guards + [T.not_(g0)])
+                    return
+            leaves.append((guards, t))
+        walk(o.value, [])
+        if len(leaves) == 1:
+            rets.append(o)
+            continue
+        for guards, leaf in leaves:
+            st_ = o.state.fork()
+            if all(st_.kn.assume(g_) for g_ in guards):
+                rets.append(I.Outcome('return', st_, value=leaf))
     raises = [o for o in outs if o.kind == 'raise']
     okr = [o for o in rets if isinstance(o.value, tuple) and
            len(o.value) == 3 and all(isinstance(x, Sym) for x in o.value)]
@@ -146,8 +180,16 @@ def run(chk, ctx):
     f = F.UnmarshalFacts(ctx, keys[0] if keys else None)
     uses_fp = any(c[0].startswith('frame.frame_parts') and
                   'frame.unmarshal' in c[1] for c in f.it.calls)
+    if not uses_fp:
+        # ... or both obtain it from the same helper
+        from_peek = {c[0].split(' ')[0] for c in it.calls
+                     if 'frame.frame_parts' in c[1]}
+        from_dec = {c[0].split(' ')[0] for c in f.it.calls
+                    if 'frame.unmarshal' in c[1]}
+        uses_fp = bool((from_peek & from_dec) - {'frame.frame_parts'})
     chk.ob('C20.D', 'frame.unmarshal uses frame_parts', uses_fp,
-           'frame_parts is called from frame.unmarshal',
+           'frame_parts (or the helper it reads the header with) is called '
+           'from frame.unmarshal',
            site='pamqp/frame.py::unmarshal')
     if not F.header_or_violation(chk, 'C20.D', f):
         return
